@@ -118,7 +118,7 @@ cpdef tuple extract_time_components(object dt):
     return (dt.hour, dt.minute, dt.weekday())
 
 
-cpdef float calculate_daily_hours(list intervals):
+cpdef double calculate_daily_hours(list intervals):
     """
     Calculate total working hours from interval list.
 
@@ -150,4 +150,4 @@ cpdef float calculate_daily_hours(list intervals):
 
         total_minutes += (end_minutes - start_minutes)
 
-    return <float>total_minutes / 60.0
+    return <double>total_minutes / 60.0
